@@ -35,7 +35,7 @@ TRUSTED_LEDGER = [
 ]
 
 RULE = ("programs = one allocator/element configuration (Elem with observable special members: D=2 x 16 trait configurations, D=1,3 x {none, all} traits, std::pmr with "
-        "3 resources at D=1,2; int: D=1..3; Semi = logged construction + trivial destructor: D=1..3; Forced = force_element_trivial_destruction: D=2) + a history of 1..8 (thorough: 1..20) operations over a pool of 4 arrays drawn from 24 operation forms "
+        "3 resources at D=1,2; int: D=1..3; Semi = logged construction + trivial destructor: D=1..3; Forced = force_element_trivial_destruction: D=2; array<T,0>: Elem with non-propagating allocators and pmr, int, Semi - 6 operation forms) + a history of 1..8 (thorough: 1..20) operations over a pool of 4 arrays drawn from 24 operation forms "
         "(every constructor form, copy/move construction and assignment, swap, reextent x3, reshape, assign, clear, view/range assignment, destruction), extents 0..5 per dimension "
         "with 0 and 1 weighted, allocator instances 0..3, then destruction of the whole pool; fault mode: the same history once per injection point k "
         "(k-th allocation / element construction / element assignment throws), each run in a forked ASan+UBSan child; distinct = different program text; "
